@@ -1,6 +1,7 @@
 import os, sys
 from vlib import Unit, Obl
 UNITS = {
+    'c23_supp': Unit('c23_supp', wrapper='props/C23/wrap_supp.cpp', libs=['lib/suppressions.cpp'], roots=['k_issupp']),
     'c23_glob': Unit('c23_glob', wrapper='props/C23/wrap_glob.cpp', libs=['lib/utils.cpp'], roots=['k_glob', 'k_validglob']),
 }
 META = {'assumptions': [], 'outside': ''}
@@ -13,6 +14,13 @@ def obligations(tier):
     o.append(Obl('glob.any.L%d' % L, 'c23_glob', 'props/C23/harness_glob.c',
                  'matchglob == glob reference for every pattern (symbol-name globs are not validated)', '|pattern|,|name| <= %d, all byte values' % L,
                  defines={'L': L}, backend='slice', timeout=900, unwind_max=12, hints={'ref.0': L + 4, 'ref.1': L + 4, 'sstr_sym.0': L + 1}))
+    SLn = 3 if tier == 'quick' else 4
+    for t, tn in enumerate(['unique', 'file', 'block', 'blockBegin', 'blockEnd']):
+        if tier == 'quick' and tn not in ('unique', 'block'):
+            continue
+        o.append(Obl('issuppressed.%s.L%d' % (tn, SLn), 'c23_supp', 'props/C23/harness_supp.c', 'Suppression::isSuppressed == documented decision table (line rule, file glob, hash, id glob, block range, symbol list), suppression type ' + tn,
+                     'all line numbers/hashes/ranges/flags; symbol list <= %d bytes over {a,b,\\n}; matchers abstracted' % SLn, defines={'SL': SLn, 'CT': t}, backend='sat', timeout=1500, unwind_max=16, mem_gb=14,
+                     hints={'sstr_sym.0': SLn + 1, 'harness.0': SLn + 1, 'harness.1': 3, 'harness.4': SLn + 3, 'harness.3': 3}))
     return o
 MANIFEST = {
     'text': 'Bounded model checking of the real matchglob (lib/utils.cpp), compiled from the working tree to LLVM IR and executed symbolically: for every pattern and name up to the stated length (all byte values) the result equals the documented glob semantics; all unwinding assertions pass, witnesses confirm non-vacuity. Kernel-level claim: suppression matching beyond these functions is outside.',
